@@ -7,6 +7,7 @@ from . import gens_r2 as R2
 from . import gens_r3 as R3
 from . import gens_r4 as R4
 from . import gens_r5 as R5
+from . import gens_r6 as R6
 
 ERR_KINDS_SMALL = ["ER_NO", "ER_BAD_DB_ERROR", "ER_PARSE_ERROR", "ER_NO_SUCH_TABLE", "ER_DUP_ENTRY",
                    "ER_ACCESS_DENIED_ERROR", "ER_UNKNOWN_ERROR", "ER_LOCK_DEADLOCK"]
@@ -1777,3 +1778,14 @@ gen_C17 = _plus(gen_C17, R5.c17_extra)
 gen_C13 = _plus(gen_C13, R5.c13_extra)
 gen_C18 = (lambda f: (lambda rng, tier, probe=None: f(rng, tier) + R5.c18_extra(rng, tier, probe)))(gen_C18)
 gen_C19 = (lambda f: (lambda rng, tier, probe=None: f(rng, tier, probe) + R5.c19_extra(rng, tier, probe)))(gen_C19)
+
+
+# sixth round of seeded defects
+gen_C02 = _plus(gen_C02, R6.c02_extra)
+gen_C06 = _plus(gen_C06, R6.c06_extra)
+gen_C07 = _plus(gen_C07, R6.c07_extra)
+gen_C08 = _plus(gen_C08, R6.c08_extra)
+gen_C10 = _plus(gen_C10, R6.c10_extra)
+gen_C11 = _plus(gen_C11, R6.c11_extra)
+gen_C18 = (lambda f: (lambda rng, tier, probe=None: f(rng, tier, probe) + R6.c18_extra(rng, tier)))(gen_C18)
+gen_C19 = (lambda f: (lambda rng, tier, probe=None: f(rng, tier, probe) + R6.c19_extra(rng, tier, probe)))(gen_C19)
